@@ -134,6 +134,13 @@ def run_path(uni, it, c, fn, info, key, rep):
     if outcome == "return":
         rep.exits["return"] += 1
         post.result = value
+        # reachability points are evaluated before the postconditions are
+        # (obliged and then) assumed
+        for label, text, _ in c.covers:
+            if text.startswith("raise:"):
+                continue
+            g = it.truth(it.ev(parse_expr(text), st, post), st)
+            it.covers.append((label, list(uni.axioms) + list(st.pc) + [g]))
         for label, text, lemmas in c.ensures:
             for n, lem in enumerate(lemmas):
                 g = it.truth(it.ev(parse_expr(lem), st, post), st)
@@ -145,11 +152,6 @@ def run_path(uni, it, c, fn, info, key, rep):
                 g = it.truth(it.ev(parse_expr(cond[1]), fr.old, pre), fr.old)
                 it.oblige(fr, st, "raises-iff", exc, z3.Not(g))
         it.frame_check(fr, st, fr.old, c.modifies, "exit")
-        for label, text, _ in c.covers:
-            if text.startswith("raise:"):
-                continue
-            g = it.truth(it.ev(parse_expr(text), st, post), st)
-            it.covers.append((label, list(uni.axioms) + list(st.pc) + [g]))
     else:
         rep.exits["raise"][value.cls] = rep.exits["raise"].get(value.cls,
                                                                0) + 1
